@@ -350,6 +350,10 @@ int cmdC10(int argc, char** argv) {
 	for (auto v : vers)
 		for (size_t inf = 5; inf <= 9; inf++) cases.push_back({"", v, 40, 1000 + inf});
 	for (size_t nb : {79, 80, 81, 100}) cases.push_back({"", "SSE-legacy", nb, 0});
+	// a plain skin instance (files of other tools; SetShapePartitions turns it into a dismember instance), and vertices that no
+	// bone has a weight for (unpainted vertices of a work in progress)
+	for (auto v : {"FO3", "SK", "SSE"}) cases.push_back({"", v, 5, 2000});
+	for (auto v : vers) cases.push_back({"", v, 6, 3000});
 	for (size_t i = 0; i < nrandom; i++) cases.push_back({"", vers[i % 4], size_t(2 + (i * 7) % 40), size_t(20 + (i * 13) % 90)});
 	{ Out trunc(outPath); }
 	size_t crashes = runForkedCases(
@@ -372,7 +376,9 @@ int cmdC10(int argc, char** argv) {
 			}
 			// ribbon: vertex i is weighted to bones spread over the bone count so that long triangle runs need many bones
 			size_t nb = cases[k].nbones;
-			size_t influences = cases[k].nv >= 1000 ? cases[k].nv - 1000 : 0;
+			bool plainInstance = cases[k].nv == 2000, unweighted = cases[k].nv == 3000;
+			size_t influences = cases[k].nv >= 1000 && cases[k].nv < 2000 ? cases[k].nv - 1000 : 0;
+			if (plainInstance || unweighted) cases[k].nv = 0;
 			size_t nv = influences ? 30 : (cases[k].nv ? cases[k].nv : std::max<size_t>(8, nb * 2 + 2));
 			std::vector<Triangle> tris;
 			for (size_t i = 0; i + 2 < nv; i++) tris.emplace_back(uint16_t(i), uint16_t(i + 1), uint16_t(i + 2));
@@ -386,6 +392,7 @@ int cmdC10(int argc, char** argv) {
 			bool random = cases[k].nv != 0 && !influences;
 			skinShape(nif, shape, nb, [&](uint16_t v) {
 				std::vector<std::pair<int, float>> w;
+				if (unweighted && v % 5 == 3) return w;
 				if (influences) {
 					// vertex v: bones v, v+1, .. (mod nb) with strictly decreasing weights summing to one
 					float total = 0;
@@ -416,6 +423,34 @@ int cmdC10(int argc, char** argv) {
 			});
 			JObj c;
 			c.add("ver", cases[k].ver).add("bones", (long long) nb).add("nv", (long long) nv).add("random", random).add("influences", (long long) influences);
+			c.add("plainInstance", plainInstance).add("unweighted", unweighted);
+			if (plainInstance) {
+				auto& hdr = nif.GetHeader();
+				auto si = hdr.GetBlock<NiSkinInstance>(shape->SkinInstanceRef());
+				if (!si) return;
+				auto plain = std::make_unique<NiSkinInstance>();
+				*plain = *static_cast<NiSkinInstance*>(si);
+				hdr.ReplaceBlock(nif.GetBlockID(si), std::move(plain));
+				NifFile re;
+				if (loadFromString(re, saveToString(nif, false, false)) != 0) return;
+				NiShape* rs = byName(re, "S");
+				if (!rs) return;
+				// first call on the plain instance: it becomes a dismember instance with one entry per partition
+				NiVector<BSDismemberSkinInstance::PartitionInfo> pinfo;
+				for (int i = 0; i < 3; i++) {
+					BSDismemberSkinInstance::PartitionInfo pi;
+					pi.partID = uint16_t(32 + i);
+					pi.flags = PF_EDITOR_VISIBLE;
+					pinfo.push_back(pi);
+				}
+				std::vector<int> tp(tris.size());
+				for (size_t i = 0; i < tp.size(); i++) tp[i] = int(i * 3 / tp.size());
+				re.SetShapePartitions(rs, pinfo, tp);
+				re.UpdateSkinPartitions(rs);
+				partitionEvent(re, rs, "SetShapePartitions(plain instance)+Update", c.done(), out);
+				partitionOps(re, "S", c.done(), rng, out);
+				return;
+			}
 			partitionOps(nif, "S", c.done(), rng, out);
 		},
 		[&](size_t k, const std::string& why, FILE* out) {
